@@ -92,3 +92,7 @@ MUTANTS = [
          why="periodic (Fourier) resampling replaced by linear interpolation on the same grid: step rule kept, "
              "band-limited signals no longer exact"),
 ]
+MUTANTS += [
+    dict(id="c14-revert-int-count", prop="C14", file="eqsig/fns/time_step.py",
+         old="    else:\n        new_npts = int(np.round(new_npts))\n    acc_interp = resample", new="    acc_interp = resample", why="reverts fix C14-F1"),
+]
